@@ -38,7 +38,8 @@ LEVEL_NOTE = 'Trusted: bvf/refmodel.py match/select/encode; generator exclusions
 
 @st.composite
 def _cases(draw, tier):
-    cfg = draw(isagen.full_isa(max_mnemonics=2, max_variants=4, address_sizes=(12, 16, 24), with_zones=False))
+    cfg = draw(isagen.full_isa(max_mnemonics=2, max_variants=4, address_sizes=(12, 16, 24), with_zones=False,
+                               spec_bias=True))
     # more overlap: restrict every variant to the first two sets
     isa = R.Isa(cfg)
     keys_in_use = set()
